@@ -295,15 +295,19 @@ def _indexed_attr(name: str, st: ast.Assign) -> Optional[IndexedAttr]:
 
 
 class ModuleInfo:
-    def __init__(self, path: Path, relpath: str, source: Optional[str] = None):
+    def __init__(self, path: Path, relpath: str, source: Optional[str] = None,
+                 tree: Optional[ast.Module] = None):
         self.path = path
         self.relpath = relpath
         self.name = path.stem
         self.source = path.read_text() if source is None else source
-        try:
-            self.tree = ast.parse(self.source, filename=str(path))
-        except SyntaxError as e:
-            raise AnalysisError("cannot parse %s: %s" % (relpath, e))
+        if tree is not None:
+            self.tree = tree
+        else:
+            try:
+                self.tree = ast.parse(self.source, filename=str(path))
+            except SyntaxError as e:
+                raise AnalysisError("cannot parse %s: %s" % (relpath, e))
         for parent in ast.walk(self.tree):
             for ch in ast.iter_child_nodes(parent):
                 ch._parent = parent  # type: ignore[attr-defined]
@@ -357,9 +361,23 @@ class Repo:
         if not pkg.is_dir():
             raise AnalysisError("anchor vanished: %s" % pkg)
         self.modules: Dict[str, ModuleInfo] = {}
+        sources: Dict[str, Tuple[Path, str, str]] = {}
+        trees: Dict[str, ast.Module] = {}
         for p in sorted(pkg.glob("*.py")):
             rel = "%s/%s" % (self.PKG, p.name)
-            self.modules[p.stem] = ModuleInfo(p, rel, self.overlay.get(rel))
+            src = self.overlay[rel] if rel in self.overlay else p.read_text()
+            sources[p.stem] = (p, rel, src)
+            try:
+                trees[p.stem] = ast.parse(src, filename=str(p))
+            except SyntaxError as e:
+                raise AnalysisError("cannot parse %s: %s" % (rel, e))
+        self.normal_form: Dict[str, object] = {}
+        if os.environ.get("VERIF_NO_NORMALISE") != "1":
+            # E0: the rules see the normal form of the tree (normalise.py), never the raw spelling
+            from .normalise import Normaliser
+            self.normal_form = Normaliser(trees).run().as_dict()
+        for stem, (p, rel, src) in sources.items():
+            self.modules[stem] = ModuleInfo(p, rel, src, trees[stem])
         self.classes: Dict[str, ClassInfo] = {}
         self.by_simple: Dict[str, List[ClassInfo]] = {}
         for m in self.modules.values():
